@@ -1306,31 +1306,51 @@ def impDecls : Decls :=
     .strct "Cp" [⟨"ncp", .int, 0⟩, ⟨"B", .embPtr, 0⟩] [],
     .iface "IP" [⟨"Put", false, 0⟩] [] ]
 
-/-- **witness (F05-21)**: the static check of `i.(C)` / `case C:` rejects a pointer-receiver method only
-    when it is declared on the type itself: `C{B}` with `(*B).Put` cannot hold in an `interface{ Put() }`
-    (Go: impossible type assertion / switch case), the interpreter accepts both statements.
-    `Cp{*B}` implements the interface: accepted under both rule sets (regression of F05-11; with the
-    test as it was before 5c3b0c5 the interpreter rejected it), and a type switch with an impossible
-    case of a type that lacks the method is rejected under both (regression of F05-12). -/
-theorem assert_impossible_check_witness :
+/-- **regressions of F05-21, F05-11, F05-12**: `C{B}` (by value) with `(*B).Put` cannot hold in an
+    `interface{ Put() }`: `i.(C)` and `case C:` are rejected under both rule sets (impossible type
+    assertion / switch case) since 6b1f98f — before, the pointer-receiver rejection of
+    `typeAssertionExpr` applied to methods declared on the type itself only and the interpreter
+    accepted both statements. `Cp{*B}` implements the interface: accepted under both (F05-11; with the
+    test as it was before 5c3b0c5 the interpreter rejected it); a type switch with an impossible case
+    of a type that lacks the method is rejected under both (F05-12). -/
+example :
     WF impDecls ∧
-    assertLegalY EF impDecls (.named 3) (.named 1) = true ∧ assertLegal impDecls (tyMethods impDecls (.named 3)) (.named 1) = false ∧
+    assertLegalY EF impDecls (.named 3) (.named 1) = false ∧ assertLegal impDecls (tyMethods impDecls (.named 3)) (.named 1) = false ∧
     run .go EF impDecls [.var "v" 1 1, .iface "i" (some 3) (.addr "v"), .assert "j" "i" (.named 1) true ""] = .reject ∧
-    run .yaegi EF impDecls [.var "v" 1 1, .iface "i" (some 3) (.addr "v"), .assert "j" "i" (.named 1) true ""]
-      = .ran [["ok", "false"]] false ∧
+    run .yaegi EF impDecls [.var "v" 1 1, .iface "i" (some 3) (.addr "v"), .assert "j" "i" (.named 1) true ""] = .reject ∧
     run .go EF impDecls [.var "v" 1 1, .iface "i" (some 3) (.addr "v"), .tswitch "i" false [[.named 1], []]] = .reject ∧
-    run .yaegi EF impDecls [.var "v" 1 1, .iface "i" (some 3) (.addr "v"), .tswitch "i" false [[.named 1], []]]
-      = .ran [["case", "1"]] false ∧
-    classify EF impDecls [.var "v" 1 1, .iface "i" (some 3) (.addr "v"), .assert "j" "i" (.named 1) true ""] = "assert-impossible-check" ∧
-    classify EF impDecls [.var "v" 1 1, .iface "i" (some 3) (.addr "v"), .tswitch "i" false [[.named 1], []]] = "tswitch-impossible-case" ∧
+    run .yaegi EF impDecls [.var "v" 1 1, .iface "i" (some 3) (.addr "v"), .tswitch "i" false [[.named 1], []]] = .reject ∧
+    classify EF impDecls [.var "v" 1 1, .iface "i" (some 3) (.addr "v"), .assert "j" "i" (.named 1) true ""] = "in-domain" ∧
+    classify EF impDecls [.var "v" 1 1, .iface "i" (some 3) (.addr "v"), .tswitch "i" false [[.named 1], []]] = "in-domain" ∧
+    assertLegalY { EF with assertPtrNeedsPtr := false } impDecls (.named 3) (.named 1) = true ∧
+    run .yaegi { EF with assertPtrNeedsPtr := false } impDecls [.var "v" 1 1, .iface "i" (some 3) (.addr "v"), .assert "j" "i" (.named 1) true ""]
+      = .ran [["ok", "false"]] false ∧
     assertLegalY EF impDecls (.named 3) (.named 2) = true ∧ assertLegal impDecls (tyMethods impDecls (.named 3)) (.named 2) = true ∧
-    assertLegalY { EF with assertPtrOwnOnly := false } impDecls (.named 3) (.named 2) = false ∧
+    assertLegalY { EF with assertPtrOwnOnly := false, assertPtrNeedsPtr := false } impDecls (.named 3) (.named 2) = false ∧
     run .yaegi EF impDecls [.var "v" 2 1, .iface "i" (some 3) (.var "v"), .assert "j" "i" (.named 2) true ""]
       = run .go EF impDecls [.var "v" 2 1, .iface "i" (some 3) (.var "v"), .assert "j" "i" (.named 2) true ""] ∧
     run .go EF impDecls [.var "v" 2 1, .iface "i" (some 3) (.var "v"), .tswitch "i" false [[.named 0], []]] = .reject ∧
     run .yaegi EF impDecls [.var "v" 2 1, .iface "i" (some 3) (.var "v"), .tswitch "i" false [[.named 0], []]] = .reject ∧
     run .yaegi { EF with tswitchCasesChecked := false } impDecls [.var "v" 2 1, .iface "i" (some 3) (.var "v"), .tswitch "i" false [[.named 0], []]]
       = .ran [["case", "1"]] false := by decide
+
+/-- `A` and `B` both have `Name`; `D` embeds both and has `Get`; `IB = interface{ Get(); Name() }` -/
+def ambIfaceDecls : Decls :=
+  [ .strct "A" [⟨"na", .int, 0⟩] [⟨"Name", false, 0⟩],
+    .strct "B" [⟨"nb", .int, 0⟩] [⟨"Name", false, 0⟩],
+    .strct "D" [⟨"nd", .int, 0⟩, ⟨"A", .emb, 0⟩, ⟨"B", .emb, 1⟩] [⟨"Get", false, 0⟩],
+    .iface "IB" [⟨"Get", false, 0⟩, ⟨"Name", false, 0⟩] [] ]
+
+/-- **witness (F05-20 in the static assertion check)**: `typeAssertionExpr` looks methods up without
+    the ambiguity test: `Name` is ambiguous in `D{A; B}`, `*D` does not implement `IB`, Go rejects
+    `case *D:` (impossible type switch case), the interpreter accepts it -/
+theorem typeassert_ambiguous_witness :
+    WF ambIfaceDecls ∧ select ambIfaceDecls 2 "Name" = .ambiguous ∧
+    assertLegalY EF ambIfaceDecls (.named 3) (.ptr 2) = true ∧ assertLegal ambIfaceDecls (tyMethods ambIfaceDecls (.named 3)) (.ptr 2) = false ∧
+    run .go EF ambIfaceDecls [.iface "i" (some 3) .nil, .tswitch "i" false [[.ptr 2], []]] = .reject ∧
+    run .yaegi EF ambIfaceDecls [.iface "i" (some 3) .nil, .tswitch "i" false [[.ptr 2], []]] = .ran [["case", "1"]] false ∧
+    classify EF ambIfaceDecls [.iface "i" (some 3) .nil, .tswitch "i" false [[.ptr 2], []]] = "tswitch-impossible-case" ∧
+    namesResolved ambIfaceDecls 2 (tyMethods ambIfaceDecls (.named 3)) = false := by decide
 
 /-- type switches: on an operand of non-empty interface type neither an interface clause nor
     `case nil` ever matches; on an `interface{}` operand holding a wrapped value every interface
